@@ -17,7 +17,7 @@ DEMO=$(ls "$SD"/demo.* | head -1)
 NC=$(mktemp -d)
 for tree in "$WT" /repo; do
   cp "$DEMO" "$VE/seed_demo_tmp.py"
-  (cd "$tree" && PQ_REPO=$tree PYTHONPATH=$VE/harness/redirect NUMBA_CACHE_DIR=$NC/$(basename $tree) timeout 1800 /venv/bin/python "$VE/seed_demo_tmp.py" > "$VE/demo.out" 2>&1; echo "demo exit on $([ $tree = /repo ] && echo original || echo changed) tree: $?"; grep -v "^WARNING\|^I0000\|^W0000" "$VE/demo.out" | grep -i "piquasso imported\|__file__" | head -1)
+  (cd "$tree" && PQ_REPO=$tree PYTHONPATH=$VE/harness/redirect NUMBA_CACHE_DIR=$NC/$(basename $tree) timeout 1800 /venv/bin/python "$VE/seed_demo_tmp.py" > "$VE/demo.out" 2>&1; rc=$?; echo "demo exit on $([ $tree = /repo ] && echo original || echo changed) tree: $rc"; grep -v "^WARNING\|^I0000\|^W0000" "$VE/demo.out" | grep -i "piquasso imported\|__file__" | head -1)
 done
 rm -rf "$NC"
 cd "$VE"
